@@ -238,6 +238,7 @@ def step (line : String) : String :=
   | "xfields" :: _ => "skip"
   | "xsource" :: _ => "skip"
   | "xstmt" :: _ => "skip"
+  | "xpool" :: _ => "skip"
   | ["fields", h] =>
     match unhex h with
     | some text => fieldsAnswer text
